@@ -8,7 +8,7 @@
    compared on every generated case by the check (application, model and specification on the same input, inside
    Coq); it is proved here only for the per-group matching step, and it is FALSE in general: see the two
    refutation theorems, whose witnesses are replayed on the application by the check (known findings). *)
-From PV Require Import Spec.CandSpec Proofs.C03 Proofs.C03r Proofs.C03e Proofs.C02m.
+From PV Require Import Spec.CandSpec Proofs.C03 Proofs.C03r Proofs.C03e Proofs.C02m Proofs.C03s.
 
 (* the specification enumerator returns exactly the valid combinations, each once *)
 Theorem C03_spec_sound : forall v q d c, In c (spec_candidates v q d) -> valid v q d c.
@@ -52,6 +52,18 @@ Theorem C03_matching_step_exact : forall d, NoDup (map rp_uuid (rps d)) ->
              ex d (fst pr) /\ snd pr = root_of d (fst pr) /\ suffixed_ok d g (fst pr) = true.
 Proof. exact matching_char. Qed.
 Print Assumptions C03_matching_step_exact.
+
+(* code model is SOUND w.r.t. the specification on the fragment without the sharing path: no provider carries
+   MISC_SHARES_VIA_AGGREGATE, every request group is suffixed (any number of groups, any group_policy, same_subtree,
+   root_required, any microversion): everything the code model returns is a valid combination.  The converse
+   inclusion (nothing valid omitted) is not proved for whole queries. *)
+Theorem C03_suffixed_only_sound : forall v q d a s,
+  rps_wf d -> no_sharing d -> parentless_root d -> caps_nonneg d ->
+  (forall g, In g (qy_groups q) -> use_same_provider g = true) ->
+  candidates v q d = COk a s ->
+  forall c, In c a -> exists c', In c' (map (creq_view v) (spec_candidates v q d)) /\ same_creq c c' = true.
+Proof. exact c03_suffixed_only_sound. Qed.
+Print Assumptions C03_suffixed_only_sound.
 
 (* REFUTED: the faithful model omits valid candidates *)
 (* 1. a sharing provider reachable from several anchors: the per-group result is a SET of allocation requests
